@@ -66,3 +66,46 @@ Proof.
   destruct l as [|a l]; [reflexivity|]. cbn [map_res]. destruct (f a); cbn [bind]; try discriminate.
   destruct (map_res f l); cbn [bind]; discriminate.
 Qed.
+
+(* ---------- reading one more word from a state left by a previous token ---------- *)
+From DV Require Import Proofs.TokDec Proofs.TokHex.
+
+Lemma word_end_blank32 r : word_end (32 :: r).
+Proof. right. exists 32, r. split; reflexivity. Qed.
+
+Lemma get_uint_word q bl n m rest : forallb is_blank bl = true -> 0 <= n <= m -> word_end rest ->
+  get_uint m (stq q (bl ++ dec n ++ rest)) 10 = Ok (n, stq false rest).
+Proof.
+  intros Hbl Hn Hr. pose proof (dec_safe n ltac:(lia)) as Hs.
+  unfold get_uint, get_unescaped.
+  rewrite (get0_word_q q bl (dec n) rest Hbl (units_safe _ Hs) (dec_nonempty n) Hr).
+  cbn [bind fst snd]. unfold unescape. cbn [tesc]. rewrite has_bs_safe by exact Hs. cbn [negb bind fst snd].
+  rewrite as_uint_dec by lia. reflexivity.
+Qed.
+
+Lemma get_string_word q bl w rest : forallb is_blank bl = true -> forallb safe w = true -> w <> [] -> word_end rest ->
+  get_string (stq q (bl ++ w ++ rest)) 0 = Ok (w, stq false rest).
+Proof.
+  intros Hbl Hs Hne Hr. unfold get_string, get_unescaped.
+  rewrite (get0_word_q q bl w rest Hbl (units_safe _ Hs) Hne Hr).
+  cbn [bind fst snd]. unfold unescape. cbn [tesc]. rewrite has_bs_safe by exact Hs. cbn [negb bind fst snd].
+  unfold as_string, is_identifier, is_quoted. cbn [ttype tvalue].
+  change (tIDENT =? tIDENT) with true. change (0 =? 0) with true. reflexivity.
+Qed.
+
+Lemma get_name_word c q bl w rest : forallb is_blank bl = true -> units w -> w <> [] -> word_end rest ->
+  get_name c (stq q (bl ++ w ++ rest)) = (do n <- as_name c (utok w); Ok (n, stq false rest)).
+Proof.
+  intros Hbl Hu Hne Hr. unfold get_name. rewrite (get0_word_q q bl w rest Hbl Hu Hne Hr). reflexivity.
+Qed.
+
+Lemma wordbreak_nil c s : wordbreak [] c s = [].
+Proof. unfold wordbreak. destruct (c <=? 0); reflexivity. Qed.
+
+Lemma get_uint_from n m stX s1 : 0 <= n <= m ->
+  get0 stX = Ok (mkTok tIDENT (dec n) (has_bs (dec n)) None, s1) -> get_uint m stX 10 = Ok (n, s1).
+Proof.
+  intros Hn HX. pose proof (dec_safe n ltac:(lia)) as Hs. unfold get_uint, get_unescaped. rewrite HX.
+  cbn [bind fst snd]. unfold unescape. cbn [tesc]. rewrite has_bs_safe by exact Hs. cbn [negb bind fst snd].
+  rewrite as_uint_dec by lia. reflexivity.
+Qed.
